@@ -925,7 +925,10 @@ def gen_case(rng, parallel=False):
 
     def target(t):
         return nsrc + t
-    npaths = nsrc + ntasks
+
+    def target2(t):
+        return nsrc + ntasks + t
+    npaths = nsrc + 2 * ntasks
     sources = [t for t, r in enumerate(roles) if r in ('producer', 'group')]
     calcs = [t for t, r in enumerate(roles) if r == 'calc']
     for t, r in enumerate(roles):
@@ -940,7 +943,8 @@ def gen_case(rng, parallel=False):
         else:
             deps = [p for p in range(nsrc) if rng.random() < 0.7]
             rng.shuffle(deps)
-            d = {'deps': deps, 'targets': [target(t)] if rng.random() < 0.4 else [],
+            d = {'deps': deps, 'targets': rng.choice([[target(t)], [target(t)], [target2(t), target(t)], [target(t), target2(t)]])
+                 if rng.random() < 0.4 else [],
                  'uptodate': [statuslib._weighted(rng, UTD_POOL)] if rng.random() < 0.45 else [],
                  'cmd': rng.random() < 0.25}
             if sources and rng.random() < 0.75:
@@ -1005,7 +1009,7 @@ def gen_case(rng, parallel=False):
             elif r < 0.27:
                 ops.append(['touch', rng.randrange(nsrc)])
             elif r < 0.35 and d['targets']:
-                ops.append(['delete', d['targets'][0]])
+                ops.append(['delete', rng.choice(d['targets'])])
             elif r < 0.62:
                 nd = json.loads(json.dumps(d))
                 q = rng.random()
@@ -1047,6 +1051,57 @@ def gen_case(rng, parallel=False):
             'ntasks': ntasks, 'npaths': npaths, 'ops': ops,
             'scramble': rng.choice([0, rng.randrange(1, 90000)])}
     return case
+
+
+EXH_LETTERS = 'abdefgku'
+
+
+def exhaustive_cases(maxlen, sample=None, rng=None):
+    """small-scope tier: one consumer over two files; every word of <= maxlen letters, each letter = one reason to run
+    followed by `doit run`:  a run --always | b edit f1 | d toggle f1 in file_dep | e edit f0 | f toggle f0 in file_dep
+    | g forget | k switch checker | u toggle a false uptodate item.  Backend / runner / cmd-action rotate."""
+    words = ['']
+    out = []
+    for _ in range(maxlen):
+        words = [w + a for w in words for a in EXH_LETTERS]
+        out += words
+    if sample is not None and len(out) > sample:
+        short = [w for w in out if len(w) < maxlen]
+        longw = [w for w in out if len(w) == maxlen]
+        rng.shuffle(longw)
+        out = short + longw[:max(0, sample - len(short))]
+    cases = []
+    for n, w in enumerate(out):
+        d = {'deps': [0], 'targets': [], 'uptodate': [], 'cmd': n % 5 == 4}
+        ck = statuslib.CHECKERS[(n // 3) % 2]
+        ops = [['edit', 0, 1], ['edit', 1, 2], ['redefine', 0, dict(d)], ['run', {'plan': {}}]]
+        par = [None, None, 'thread', 'process'][(n // 7) % 4]
+        cid = 3
+        for a in w:
+            always = False
+            if a == 'a':
+                always = True
+            elif a in 'be':
+                cid += 1
+                ops.append(['edit', 0 if a == 'e' else 1, cid])
+            elif a in 'df':
+                q = 0 if a == 'f' else 1
+                d['deps'] = [x for x in d['deps'] if x != q] if q in d['deps'] else d['deps'] + [q]
+                if not d['deps'] and not d['uptodate']:
+                    pass
+                ops.append(['redefine', 0, json.loads(json.dumps(d))])
+            elif a == 'g':
+                ops.append(['forget', [0]])
+            elif a == 'k':
+                ck = 'timestamp' if ck == 'md5' else 'md5'
+                ops.append(['checker', ck])
+            elif a == 'u':
+                d['uptodate'] = [] if d['uptodate'] else [['const', False]]
+                ops.append(['redefine', 0, json.loads(json.dumps(d))])
+            ops.append(['run', {'plan': {}, 'always': always, 'par': par}])
+        cases.append({'backend': statuslib.BACKENDS[n % 3], 'checker': statuslib.CHECKERS[(n // 3) % 2], 'ntasks': 1,
+                      'npaths': 2, 'ops': ops, 'scramble': (n % 4) * 1237, 'word': w})
+    return cases
 
 
 def mutate_case(rng, case):
@@ -1140,6 +1195,13 @@ def run(ctx):
                     items.append(('corpus', cc))
         else:
             items.append(('corpus', c))
+    exh_len = 2 if quick and ctx.boost == 1 else 3
+    ex = exhaustive_cases(exh_len) if not quick else \
+        exhaustive_cases(3, sample=(150 if ctx.boost == 1 else 584), rng=random_for(ctx, 'exh'))
+    ctx.extra['exhaustive_small_scope'] = {'alphabet': len(EXH_LETTERS), 'max_len': 3 if ex else 0, 'histories': len(ex),
+                                           'complete_up_to_len': 3 if (not quick or ctx.boost > 1) else 2}
+    for c in ex:
+        items.append(('exhaustive', c))
     for i in range(n_random):
         r = random_for(ctx, i)
         if corpus and r.random() < 0.12:
